@@ -324,7 +324,7 @@ func (e *Engine) runBlocks(f *frame, b *ssa.BasicBlock) (gp *goPanic) {
 				return nil
 			case *ssa.Panic:
 				v := e.get(f, x.X)
-				panic(&goPanic{val: v, msg: e.describe(v), stack: e.stackNames()})
+				panic(&goPanic{pos: e.curPosStr(), val: v, msg: e.describe(v), stack: e.stackNames()})
 			case *ssa.RunDefers:
 				e.runDefers(f)
 			default:
@@ -433,7 +433,12 @@ func (e *Engine) exec(f *frame, in ssa.Instruction) {
 	case *ssa.Slice:
 		e.set(f, x, e.sliceOp(f, x))
 	case *ssa.Call:
-		r := e.call(f, &x.Call)
+		var r Value
+		if e.tolerantInit && f.fn.Synthetic == "package initializer" {
+			r = e.tolerantCall(f, x)
+		} else {
+			r = e.call(f, &x.Call)
+		}
 		if r == nil {
 			r = Tuple{}
 		}
@@ -785,4 +790,35 @@ func (e *Engine) concretizeLen(t *smt.Term, what string) int {
 		e.unsupported("symbolic %s may exceed %d", what, limit)
 	}
 	return e.concretize(t, true, 0, limit, what)
+}
+
+// tolerantCall runs an initialiser call of a library package; if the engine cannot
+// execute it, the result is the zero value (the variable stays uninitialised).
+func (e *Engine) tolerantCall(f *frame, x *ssa.Call) (r Value) {
+	depth, sl := e.depth, len(e.stack)
+	defer func() {
+		if rec := recover(); rec != nil {
+			switch rec.(type) {
+			case abortPath, *goPanic:
+			default:
+				if _, ok := rec.(string); !ok {
+					if _, ok2 := rec.(error); !ok2 {
+						panic(rec)
+					}
+				}
+			}
+			e.stack = e.stack[:sl]
+			e.depth = depth
+			res := x.Call.Signature().Results()
+			switch res.Len() {
+			case 0:
+				r = nil
+			case 1:
+				r = e.zero(res.At(0).Type())
+			default:
+				r = e.zero(res)
+			}
+		}
+	}()
+	return e.call(f, &x.Call)
 }
